@@ -21,9 +21,13 @@ INC    := -I$(REPO)/include -I$(REPO)/include/fix8 -I$(REPO)/runtime $(CFGINC) -
 COMMON := -g -pthread -w -fno-omit-frame-pointer $(INC)
 
 FLAGS_plain := -O2
-FLAGS_san   := -O1 -fsanitize=address,undefined -fno-sanitize=alignment -fno-sanitize-recover=undefined
+FLAGS_san   := -O1 -fsanitize=address,undefined -fno-sanitize=alignment,vptr -fno-sanitize-recover=undefined
 FLAGS_sched := -O1 -fsanitize=address -DVERIF_SCHED -include $(V)/engines/sched/ff_shim.hpp
 FLAGS_tsan  := -O1 -fsanitize=thread -DVERIF_SCHED -DVERIF_TSAN -include $(V)/engines/sched/ff_shim.hpp
+GENFLAGS_plain := -O0
+GENFLAGS_san   := -O0 -fsanitize=address
+GENFLAGS_sched := -O0 -fsanitize=address
+GENFLAGS_tsan  := -O0 -fsanitize=thread
 VARIANTS := plain san sched tsan
 
 LIBS := -lPocoFoundation -lPocoNet -lPocoUtil -lz -lpthread -ldl
@@ -32,28 +36,37 @@ RT_SRCS := xml f8utils message traits session logger persist connection configur
 F8C_SRCS := f8c f8cutils f8precomp
 
 define VARIANT_RULES
-$(B)/$(1)/rt/%.o: $(REPO)/runtime/%.cpp
+# flags stamp: rewritten only when the flags of this variant change; every object of the variant depends on it
+$(B)/$(1)/.flags: FORCE
+	@mkdir -p $$(dir $$@)
+	@echo '$$(FLAGS_$(1)) $$(GENFLAGS_$(1)) $(COMMON)' | cmp -s - $$@ || echo '$$(FLAGS_$(1)) $$(GENFLAGS_$(1)) $(COMMON)' > $$@
+$(B)/$(1)/rt/%.o: $(REPO)/runtime/%.cpp $(B)/$(1)/.flags
 	@mkdir -p $$(dir $$@)
 	$(CXX) $(COMMON) $$(FLAGS_$(1)) -MMD -MP -c $$< -o $$@
-$(B)/$(1)/rt/modp_numtoa.o: $(REPO)/runtime/modp_numtoa.c
+$(B)/$(1)/rt/modp_numtoa.o: $(REPO)/runtime/modp_numtoa.c $(B)/$(1)/.flags
 	@mkdir -p $$(dir $$@)
 	$(CC) -g -w $$(filter-out -include $(V)/engines/sched/ff_shim.hpp,$$(FLAGS_$(1))) -fno-omit-frame-pointer $(INC) -MMD -MP -c $$< -o $$@
 $(B)/$(1)/librt.a: $$(foreach s,$(RT_SRCS),$(B)/$(1)/rt/$$(s).o) $(B)/$(1)/rt/modp_numtoa.o
 	@rm -f $$@
 	ar rcs $$@ $$^
-# generated schema code, one unity object per schema and variant
-$(B)/$(1)/gen_utest.o: $(V)/harness/unity_utest.cpp | $(B)/gen/utest/.stamp
+# generated schema code: three TUs per schema compiled in parallel at -O0 (ASan/TSan only, no UBSan: the generated
+# tables are huge and the full flags cost minutes), then combined with ld -r
+$(B)/$(1)/gen/utest_%.o: $(B)/$(1)/.flags | $(B)/gen/utest/.stamp
 	@mkdir -p $$(dir $$@)
-	$(CXX) $(COMMON) $$(FLAGS_$(1)) -I$(B)/gen/utest -MMD -MP -c $(V)/harness/unity_utest.cpp -o $$@
-$(B)/$(1)/gen_fix44.o: $(V)/harness/unity_fix44.cpp | $(B)/gen/fix44/.stamp
+	$(CXX) $(COMMON) $$(GENFLAGS_$(1)) -g1 -I$(B)/gen/utest -MMD -MP -c $(B)/gen/utest/utest_$$*.cpp -o $$@
+$(B)/$(1)/gen/fix44_%.o: $(B)/$(1)/.flags | $(B)/gen/fix44/.stamp
 	@mkdir -p $$(dir $$@)
-	$(CXX) $(COMMON) $$(FLAGS_$(1)) -I$(B)/gen/fix44 -MMD -MP -c $(V)/harness/unity_fix44.cpp -o $$@
+	$(CXX) $(COMMON) $$(GENFLAGS_$(1)) -g1 -I$(B)/gen/fix44 -MMD -MP -c $(B)/gen/fix44/fix44_$$*.cpp -o $$@
+$(B)/$(1)/gen_utest.o: $(B)/$(1)/gen/utest_types.o $(B)/$(1)/gen/utest_traits.o $(B)/$(1)/gen/utest_classes.o
+	ld -r -o $$@ $$^
+$(B)/$(1)/gen_fix44.o: $(B)/$(1)/gen/fix44_types.o $(B)/$(1)/gen/fix44_traits.o $(B)/$(1)/gen/fix44_classes.o
+	ld -r -o $$@ $$^
 # engine objects
-$(B)/$(1)/eng/%.o: $(V)/engines/%.cpp
+$(B)/$(1)/eng/%.o: $(V)/engines/%.cpp $(B)/$(1)/.flags
 	@mkdir -p $$(dir $$@)
 	$(CXX) $(COMMON) $$(FLAGS_$(1)) -MMD -MP -c $$< -o $$@
 # harness objects (look inside objects: no access control)
-$(B)/$(1)/h/%.o: $(V)/harness/%.cpp | $(B)/gen/utest/.stamp $(B)/gen/fix44/.stamp
+$(B)/$(1)/h/%.o: $(V)/harness/%.cpp $(B)/$(1)/.flags | $(B)/gen/utest/.stamp $(B)/gen/fix44/.stamp
 	@mkdir -p $$(dir $$@)
 	$(CXX) $(COMMON) $$(FLAGS_$(1)) -fno-access-control -I$(B)/gen/utest -I$(B)/gen/fix44 -MMD -MP -c $$< -o $$@
 endef
@@ -86,6 +99,14 @@ $(B)/gen/fix44/.stamp: $(B)/f8c/f8c $(REPO)/schema/FIX44.xml
 	@for f in $(B)/gen/fix44.tmp/*; do cmp -s $$f $(B)/gen/fix44/$$(basename $$f) || cp $$f $(B)/gen/fix44/; done; rm -rf $(B)/gen/fix44.tmp
 	@touch $@
 
+# ---- independent schema models (python, xml.etree) for the harness oracles
+$(B)/gen/utest.model: $(REPO)/schema/FIX42UTEST.xml $(V)/vp/schema_model.py
+	@mkdir -p $(dir $@)
+	python3 $(V)/vp/schema_model.py $(REPO)/schema/FIX42UTEST.xml $@ --xfields $(UTEST_XF)
+$(B)/gen/fix44.model: $(REPO)/schema/FIX44.xml $(V)/vp/schema_model.py
+	@mkdir -p $(dir $@)
+	python3 $(V)/vp/schema_model.py $(REPO)/schema/FIX44.xml $@
+
 # ---- harness binaries:  $(B)/<variant>/bin/<name>
 # HARNESS_<name> = extra objects relative to $(B)/<variant>/   (h/<name>.o is implied)
 include $(V)/harness/harness.mk
@@ -97,8 +118,10 @@ $(B)/$(1)/bin/$(2): $(B)/$(1)/h/$(2).o $$(addprefix $(B)/$(1)/,$$(HARNESS_$(2)))
 endef
 $(foreach v,$(VARIANTS),$(foreach h,$(HARNESSES),$(eval $(call BIN_RULE,$(v),$(h)))))
 
-all: $(ALL_BINS)
-.PHONY: all
+all:
+.PHONY: all FORCE
+%.d: ;
+FORCE:
 .SECONDARY:
 .DELETE_ON_ERROR:
 -include $(shell find $(B) -name '*.d' 2>/dev/null)
